@@ -1,5 +1,6 @@
 \* storage level, exhaustive over call sequences of ANY length: head 0..3, <= 3 slots, ids {a, b,
 \* blank}, 0..2 txs per slot, no newClasses (those are in the other configurations); every obtainable view checked in every state
+\* measured: 57,856 distinct / 858,193 generated states, depth 17 (~100 s)
 CONSTANTS
   MaxHead = 3
   MaxSlots = 3
